@@ -60,3 +60,24 @@ Fixpoint recv_all (m : mode) (torn : nat) (q : qstate) (during : option qstate) 
       let '(_, cs, f1) := recv_first m QMsg None flag in          (* a first fragment is there: taken, found torn, dropped *)
       let '(o, cs', f2) := recv_all m n q during f1 in (o, cs ++ cs', f2)
   end.
+
+(* ---- a signal with an installed handler reaches the thread while it waits in poll(): poll is never restarted, it fails with EINTR;
+   the receive reports an I/O error - NOT 'empty', the requested time has not passed - takes nothing from the queue and leaves the
+   description's flag alone.  `intr` says whether that happens to this attempt; it can only matter to a timed receive that has to
+   wait (on QMsg / QDead poll returns at once).  Separate result types, so that everything above stays as it is. ---- *)
+Inductive outcome_s := SOut (o : outcome) | SInterrupted.
+Inductive call_s := SCall (c : call) | SPollIntr (arg : Z).
+
+Definition recv_first_sig (m : mode) (q : qstate) (during : option qstate) (intr : bool) (flag : bool) : outcome_s * list call_s * bool :=
+  match m, q, intr with
+  | MTimeout us, QIdle, true => (SInterrupted, [SPollIntr (poll_arg us)], flag)
+  | _, _, _ => let '(o, cs, f) := recv_first m q during flag in (SOut o, map SCall cs, f)
+  end.
+
+Fixpoint run_sig (flag : bool) (ops : list (mode * qstate * option qstate * bool)) : list outcome_s * list call_s * bool :=
+  match ops with
+  | [] => ([], [], flag)
+  | (m, q, d, i) :: r =>
+      let '(o, cs, f1) := recv_first_sig m q d i flag in
+      let '(os, cs', f2) := run_sig f1 r in (o :: os, cs ++ cs', f2)
+  end.
